@@ -128,6 +128,7 @@ const (
 	BOne
 	BSrc // bit J of symbol S, negated if Neg
 	BTop
+	BFn // a boolean function of two input bits: TT[(x<<1)|y] with x = bit J of S, y = bit J2 of S2, (S,J) < (S2,J2)
 )
 
 type Bit struct {
@@ -135,6 +136,9 @@ type Bit struct {
 	Neg bool
 	J   uint8
 	S   Sym
+	J2  uint8
+	TT  uint8
+	S2  Sym
 }
 
 var (
@@ -153,6 +157,9 @@ func (b Bit) Not() Bit {
 	case BSrc:
 		b.Neg = !b.Neg
 		return b
+	case BFn:
+		b.TT = ^b.TT & 0xf
+		return b
 	}
 	return bitTop
 }
@@ -168,8 +175,104 @@ func (b Bit) String() string {
 			n = "!"
 		}
 		return fmt.Sprintf("%ss%d.%d", n, b.S, b.J)
+	case BFn:
+		return fmt.Sprintf("fn%04b(s%d.%d,s%d.%d)", b.TT, b.S, b.J, b.S2, b.J2)
 	}
 	return "?"
+}
+
+// bit2 combines two bits with a boolean operator when together they depend on at most two input bits:
+// the result is a constant, an input bit (possibly negated) or a two-input function given by its truth table.
+func bit2(op func(x, y bool) bool, a, b Bit) Bit {
+	type src struct {
+		S Sym
+		J uint8
+	}
+	var vars []src
+	add := func(s Sym, j uint8) {
+		for _, v := range vars {
+			if v.S == s && v.J == j {
+				return
+			}
+		}
+		vars = append(vars, src{s, j})
+	}
+	for _, x := range []Bit{a, b} {
+		switch x.K {
+		case BZero, BOne:
+		case BSrc:
+			add(x.S, x.J)
+		case BFn:
+			add(x.S, x.J)
+			add(x.S2, x.J2)
+		default:
+			return bitTop
+		}
+	}
+	if len(vars) > 2 {
+		return bitTop
+	}
+	if len(vars) == 2 && (vars[1].S < vars[0].S || (vars[1].S == vars[0].S && vars[1].J < vars[0].J)) {
+		vars[0], vars[1] = vars[1], vars[0]
+	}
+	val := func(x Bit, asg [2]bool) bool {
+		get := func(s Sym, j uint8) bool {
+			for i, v := range vars {
+				if v.S == s && v.J == j {
+					return asg[i]
+				}
+			}
+			return false
+		}
+		switch x.K {
+		case BOne:
+			return true
+		case BSrc:
+			return get(x.S, x.J) != x.Neg
+		case BFn:
+			i := 0
+			if get(x.S, x.J) {
+				i |= 2
+			}
+			if get(x.S2, x.J2) {
+				i |= 1
+			}
+			return x.TT>>uint(i)&1 == 1
+		}
+		return false
+	}
+	var tt uint8
+	for i := 0; i < 4; i++ {
+		asg := [2]bool{i&2 != 0, i&1 != 0}
+		if op(val(a, asg), val(b, asg)) {
+			tt |= 1 << uint(i)
+		}
+	}
+	// simplify
+	switch {
+	case tt == 0:
+		return bit0
+	case tt == 0xf:
+		return bit1
+	}
+	if len(vars) >= 1 {
+		if tt == 0b1100 { // x
+			return Bit{K: BSrc, S: vars[0].S, J: vars[0].J}
+		}
+		if tt == 0b0011 {
+			return Bit{K: BSrc, S: vars[0].S, J: vars[0].J, Neg: true}
+		}
+	}
+	if len(vars) == 2 {
+		if tt == 0b1010 { // y
+			return Bit{K: BSrc, S: vars[1].S, J: vars[1].J}
+		}
+		if tt == 0b0101 {
+			return Bit{K: BSrc, S: vars[1].S, J: vars[1].J, Neg: true}
+		}
+		return Bit{K: BFn, S: vars[0].S, J: vars[0].J, S2: vars[1].S, J2: vars[1].J, TT: tt}
+	}
+	return bitTop
 }
 
 func sameSrc(a, b Bit) bool { return a.K == BSrc && b.K == BSrc && a.S == b.S && a.J == b.J }
@@ -188,7 +291,7 @@ func bitAnd(a, b Bit) Bit {
 		}
 		return bit0
 	}
-	return bitTop
+	return bit2(func(x, y bool) bool { return x && y }, a, b)
 }
 
 func bitOr(a, b Bit) Bit {
@@ -205,7 +308,7 @@ func bitOr(a, b Bit) Bit {
 		}
 		return bit1
 	}
-	return bitTop
+	return bit2(func(x, y bool) bool { return x || y }, a, b)
 }
 
 func bitXor(a, b Bit) Bit {
@@ -224,7 +327,7 @@ func bitXor(a, b Bit) Bit {
 		}
 		return bit1
 	}
-	return bitTop
+	return bit2(func(x, y bool) bool { return x != y }, a, b)
 }
 
 func bitMaj(a, b, c Bit) Bit {
